@@ -33,6 +33,7 @@ f5b320c C18
 ddb7a7f C18
 5353f3f C18
 78eb247 C01
+41f14ef C09 C08
 LIST
 mv $OUT.tmp $OUT
 python3 lib/seeded_meta.py >/dev/null
